@@ -674,6 +674,17 @@ def mutate(rnd, v, fmt, depth=0):
 
 
 # ------------------------------------------------------------------ fragment predicate (generator and shrinker stay inside it)
+def starts_with_paren(t1):
+    k = t1["k"]
+    if k == "paren":
+        return True
+    if k == "range":
+        return t1["lo"]["k"] in ("range", "ctl") or starts_with_paren(t1["lo"])
+    if k == "ctl":
+        return t1["t"]["k"] in ("range", "ctl") or starts_with_paren(t1["t"])
+    return False
+
+
 def in_fragment(rules):
     """constructs deliberately outside the generated fragment (each is a listed known finding or documented exclusion)"""
     ok = [True]
@@ -683,8 +694,8 @@ def in_fragment(rules):
             if "galts" in o:
                 if len(o["galts"]) > 1 and any(len(a) == 0 for a in o["galts"]):
                     ok[0] = False      # empty alternative of a group choice
-            if o.get("k") == "ent" and o["key"]["kk"] == "none" and o["t"]["alts"] and o["t"]["alts"][0]["k"] == "paren":
-                ok[0] = False          # '(type) / ...' as a group entry: the PEG parser commits to an inline group (C03 finding)
+            if o.get("k") == "ent" and o["key"]["kk"] == "none" and o["t"]["alts"] and starts_with_paren(o["t"]["alts"][0]):
+                ok[0] = False          # '(type) ...' as a group entry: the PEG parser commits to an inline group (C03 finding)
             for v in o.values():
                 walk(v)
         elif isinstance(o, list):
